@@ -7,7 +7,7 @@ import random
 from multiprocessing import Pool
 
 from . import toy
-from .core import NCPU, limited
+from .core import Guarded, limited, NCPU, CallTimeout
 from .fields import bits
 
 BN_MC = (82, 0, 0, 0, 0, 0, -18, 0, 0, 0, 0, 0)
@@ -115,7 +115,9 @@ def twist_module(mname, f2name, f12name):
 
 def _safe(fn):
     try:
-        return limited(fn, 120)
+        return limited(fn, 60)
+    except CallTimeout:
+        raise       # non-termination: abort the job, reported by main
     except RecursionError:
         return "EXC:RecursionError"
     except Exception as e:  # noqa: BLE001
@@ -386,7 +388,7 @@ def build_tables(tier, seed, log=lambda *a: None, mods=None, only_ops=None):
             work.append((ji, (mname, cname, op, items[k:k + step])))
     log(f"curve tables: {len(jobs)} jobs, {sum(len(j[0][3]) for j in jobs)} rows to produce")
     with Pool(NCPU) as pool:
-        parts = pool.map(_wrap, work, chunksize=1)
+        parts = pool.map(Guarded(_wrap), work, chunksize=1)
     by = {}
     for (ji, _), rows in zip(work, parts):
         by.setdefault(ji, []).extend(rows)
